@@ -32,8 +32,17 @@ MANIFEST = {
             "deepali's own Grid methods, passed as one grid, a sequence of one or of N grids, or as normalised coordinates (per "
             "item or shared, grid-shaped or point lists); (2d) the image operations a flow field inherits (resize, downsample, "
             "upsample, avg_pool, crop, pad, center_crop, center_pad, region_of_interest) are judged like sample() on the derived grid, one "
-            "representation per case against the WORLD-axes run; (3) exported with sitk()/write and read back with an independent "
-            "reader. Exploration with Hypothesis, no absence proof.",
+            "representation per case against the WORLD-axes run; (3) exported with sitk()/write (default and explicit axes=) and read "
+            "back with an independent reader; (4) run through programs of 2..5 operations on grid OBJECTS that stay alive: the field is "
+            "held in one representation on grids that were already used for vector conversions, resampled on grids derived from them "
+            "with deepali's own Grid methods (resize, reshape, downsample, upsample, pyramid level, resample, crop, pad, copies with "
+            "another flag / centre / spacing / direction), resampled back onto earlier grid objects, put through the inherited image "
+            "operations, exp(), axes() cycles and in-place scaling, and after every step its world-space meaning is compared with a "
+            "float64 model of the program (multilinear interpolation of the world vectors) and with the same program run on the field "
+            "given in WORLD axes on grid objects of its own; between the steps warp_image(), the vector matrices "
+            "Grid.transform(..., vectors=True) of every live grid (same grid and grid-to-grid) and the independence of converted copies "
+            "from later in-place writes are observed, and afterwards a second field that shares the original grid objects must still "
+            "convert and resample correctly and no grid may have changed its flag. Exploration with Hypothesis, no absence proof.",
     "note": "Trusted: vlib/ref.py GridModel (float64 numpy; self-tested against SimpleITK in C02), the affine closed form of "
             "props/c11.py, SimpleITK as independent reader of exported fields. Tolerances are 64 (conversions) or 256 (flow "
             "operations) times eps32 times a condition term computed from the reference model, because deepali keeps grid "
@@ -66,7 +75,26 @@ ASSUMPTIONS = [
     "that each combination is matched separately; downsample/upsample smooth the field, so only resize and avg_pool are pinned to "
     "the affine closed form; tensor-named operations (narrow, flip, indexing) are pinned to plain torch values in C19 and not judged here",
     "fields given in different representations: from_images(), torch.cat and + of such fields must raise ValueError (as the code "
-    "documents) or yield the consistent world-space result; only silent relabelling is a violation",
+    "documents) or yield the consistent world-space result; only silent relabelling is a violation; append() must express the "
+    "appended batch w.r.t. the axes of the batch it is appended to (its docstring)",
+    "program facet: moderate geometry (spacing 0.3..3, |centre| <= 10, sizes 3..8 (2-D) / 3..5 (3-D), derived sizes 2..12 / 2..7) so "
+    "that the accumulated float32 point-map error stays below the effects guarded; bounds add up per step (resampling: as in the "
+    "sample facet with the gradient of the interpolant taken from the reference data; exp: error amplification exp(L e^L / 2) for "
+    "the measured Lipschitz constant L of the velocity in samples per sample, cases with L >= 3 are not judged); linear "
+    "interpolation only, padding None/zeros/border",
+    "program facet: the geometry of derived and result grids is read from the grid objects of the WORLD-axes run (size(), spacing(), "
+    "center(), direction() copied to float64) - the derivation itself is C03's subject; both runs must end up on equal grids. The "
+    "float64 model covers sample() on any grid, resize() (linear, clamped at the boundary), resample() and the crop/pad family (zero "
+    "fill); downsample/upsample/pyramid (Gaussian smoothing) and exp() are judged against the WORLD-axes run only",
+    "program facet: operations are resolved against the size the field has when the step is reached; a derivation that the size "
+    "does not allow (fewer than 2 samples, more than the cap, pyramid whose coarsest level would have < 2 samples (n < 1.5 * 2^levels), "
+    "per-item sizes that differ because the grids of a batch carry different flags) is replaced by a resize() or skipped (label "
+    "did=noop); grids with a fractional size (kept by Grid.resample() and Grid.downsample() of odd sizes) are only used for axes() "
+    "and sample(): the image operations of a field on such a grid disagree with the grid about the data shape (seen as ValueError in "
+    "Image.upsample after sampling on grid.downsample() of an odd size), which is not a statement about vector representations",
+    "program facet: overwriting the result of axes(a) must not change the field it was computed from, nor a later axes(a), only for "
+    "a != current axes (for equal axes the low-level Grid.transform_vectors documents that the input tensor itself is returned); "
+    "Grid objects are treated as values: no flow operation may change the align_corners flag of a grid it is given",
 ]
 
 AX = ["grid", "cube", "cube_corners", "world"]
@@ -440,6 +468,19 @@ def mixed_axes(case, ms, gr, dt, eps, f, va, a: str, c: str):
                 bnd = KC * eps * (conv_scale(mm[i], va[i % N], a, "world") + conv_scale(mm[i], vc[i % N], c, "world"))
                 check_close(mm[i].vectors(its[i], q, "world"), exp[i], 2 * bnd, "mixed_axes_batch_mislabelled",
                             f"from_images() of fields in {a} and {c} axes (result labelled {q}), item {i}")
+        # append() documents that the other batch is expressed w.r.t. the axes of this batch
+        z = f.append(g)
+        if type(z) is not FlowFields or z.axes() is not _A(a) or len(items(z)) != 2 * N or len(result_grids(z)) != 2 * N:
+            raise Violation("append_result", f"append() of a batch in {c} axes to a batch in {a} axes: {type(z).__name__} with {len(items(z))} items on "
+                                             f"{len(result_grids(z))} grids in {z.axes()} axes")
+        its = items(z)
+        for i in range(2 * N):
+            j = i % N
+            if not (result_grids(z)[i] == gr[j]):
+                raise Violation("append_result", f"append(): item {i} is not on the grid of the field it came from")
+            bnd = KC * eps * (conv_scale(ms[j], va[j], a, "world") + conv_scale(ms[j], vc[j], c, "world")) * cond_vec(ms[j])
+            check_close(ms[j].vectors(its[i], a, "world"), uw[j], 2 * bnd, "append_mislabelled",
+                        f"append() of a batch in {c} axes to the same batch in {a} axes, item {i}")
         try:
             z = torch.cat([f, g], dim=0)
         except ValueError:
@@ -1269,8 +1310,653 @@ def run_sitk(case):
             if rd.axes() is not _A("world"):
                 raise Violation("read_axes", f"read() reports axes {rd.axes()}")
             check_close(items(rd)[0], uw, bw, "read_world_vectors", "FlowField.read() of the written file")
+            # write(path, axes=q) stores the vectors w.r.t. q; read(path, axes=q) labels what it finds accordingly
+            pq = os.path.join(d, "flow_q" + case["file"])
+            f.write(pq, axes=_A(q))
+            stored = sitk.GetArrayFromImage(sitk.ReadImage(pq)).astype(np.float64)
+            if stored.shape != uw.shape:
+                raise Violation("write_layout", f"written array has shape {stored.shape}, expected {uw.shape}")
+            check_close(stored, m.vectors(vr, r, q), KC * eps * conv_scale(m, vr, r, q), "write_axes_argument",
+                        f"write({case['file']}, axes={q}) of field given in {r} axes, read by SimpleITK")
+            rq = FlowField.read(pq, axes=_A(q), dtype=dt)
+            if rq.axes() is not _A(q):
+                raise Violation("read_axes", f"read(axes={q}) reports axes {rq.axes()}")
+            vq = m.vectors(vr, r, q)
+            check_close(items(rq.axes(_A("world")))[0], uw, bw + KC * eps * conv_scale(m, vq, q, "world") + KC * eps * conv_scale(m, vr, r, q) * float(absmat(m, q, "world").sum(1).max()),
+                        "read_axes_roundtrip", f"read(axes={q}) of the file written with axes={q}, converted to world axes")
     labs, objq, _ = grid_labels(case)
     return {"ratio": worst, "nontrivial": objq and r != "world", "labels": labs + [f"r={r}", f"q={q}", "file=" + str(case["file"]), "route=" + case.get("route", "direct")]}
+
+
+# ---------------------------------------------------------------------------------------
+# (5) programs: several flow operations in a row on grid objects that stay alive and are derived from one another
+#
+# Every other facet evaluates one operation on freshly built grids.  Here a flow field given in representation r runs a short
+# program (re-expression, resampling on grids derived with deepali's own Grid methods from grids that were already used for a
+# vector conversion, resampling back, inherited image operations, exp, in-place scaling, flag-flipped grid copies), and after
+# every step its world-space meaning is compared with (a) the float64 model of the program where one exists (multilinear
+# interpolation of the world vectors, ref.interp) and (b) the run of the same program on the same field given in WORLD axes, on
+# grid objects of its own that are never shared with the first run (the WORLD path performs no vector conversion at all).
+
+PCAP = {2: 12, 3: 7}
+HOWS = ["resize", "resize", "downsample", "downsample", "upsample", "pyramid", "resample", "resample", "crop", "pad", "acflip", "recenter", "respace", "reorient"]
+METHODS = ["resize", "downsample", "downsample", "upsample", "pyramid", "pyramid", "pyramid", "resample", "resample", "crop", "pad", "center_crop", "center_pad"]
+PADS = [None, "zeros", "border", "border"]
+
+
+@st.composite
+def how_specs(draw, D: int, kinds):
+    """How a grid is derived from a live grid (resolved against the size the grid has when the step is reached)."""
+    cap = PCAP[D]
+    how = draw(st.sampled_from(kinds))
+    # alt: the size of the resize() that takes the place of a derivation the current grid size does not allow
+    spec = {"how": how, "alt": draw(st.lists(st.integers(2, cap), min_size=D, max_size=D))}
+    rac = st.sampled_from([None, None, True, False])
+    if how == "resize":
+        spec.update({"size": draw(st.lists(st.integers(2, cap), min_size=D, max_size=D)), "rac": draw(rac),
+                     "form": draw(st.sampled_from(["list", "args", "reshape"]))})
+    elif how in ("downsample", "upsample"):
+        spec.update({"dims": draw(st.one_of(st.none(), st.lists(st.integers(0, D - 1), min_size=1, max_size=D, unique=True).map(sorted))),
+                     "rac": draw(rac)})
+    elif how == "pyramid":
+        levels = draw(st.sampled_from([1, 1, 1, 2]))
+        spec.update({"levels": levels, "level": draw(st.integers(0, levels))})
+    elif how == "resample":
+        spec.update({"to": draw(st.sampled_from(["factor", "factor", "min", "max"])),
+                     "f": draw(st.lists(gen.qfloat(0.45, 1.6, 0.01), min_size=D, max_size=D))})
+    elif how in ("crop", "pad", "center_crop", "center_pad"):
+        spec.update({"num": [[draw(st.integers(0, 2)), draw(st.integers(0, 2))] for _ in range(D)],
+                     "form": draw(st.sampled_from(["num", "num", "margin"]))})
+    elif how == "recenter":
+        off = draw(st.lists(gen.qfloat(-1.5, 1.5, 0.25), min_size=D, max_size=D))
+        if not any(off):
+            off[0] = 0.5
+        spec["off"] = off
+    elif how == "respace":  # Grid.spacing(new): same size and centre
+        spec["f"] = draw(st.lists(st.sampled_from([0.6, 0.75, 0.9, 1.25, 1.5]), min_size=D, max_size=D))
+    elif how == "reorient":  # Grid.direction(new): rotated about its centre in the plane of its first two axes
+        spec["angle"] = draw(st.sampled_from([-0.4, -0.15, 0.1, 0.3]))
+    return spec
+
+
+REGRID_OPS = ["sample", "sample", "sample", "back", "back", "method", "method"]
+OTHER_OPS = ["axes", "axes", "cycle", "exp", "inplace", "acflip", "warp", "warp", "probe", "probe", "poke"]
+
+
+@st.composite
+def program_ops(draw, D: int, kinds):
+    kind = draw(st.sampled_from(kinds))
+    op = {"op": kind}
+    if kind == "sample":
+        op.update({"src": draw(st.sampled_from(["cur", "cur", "base", "base", "prev"])), "how": draw(how_specs(D, HOWS)),
+                   "padding": draw(st.sampled_from(PADS)), "form": draw(st.sampled_from(["single", "list", "list_one"]))})
+    elif kind == "back":  # onto a grid object that was the field's grid before (the original one, or that of the step before)
+        op.update({"op": "sample", "src": draw(st.sampled_from(["base", "base", "prev"])), "how": {"how": "self"},
+                   "padding": draw(st.sampled_from(PADS)), "form": draw(st.sampled_from(["single", "list", "list_one"]))})
+    elif kind == "method":
+        op["how"] = draw(how_specs(D, METHODS))
+    elif kind == "axes":
+        op["a"] = draw(st.sampled_from(AX))
+    elif kind == "cycle":
+        op.update({"path": draw(st.lists(st.sampled_from(AX), min_size=2, max_size=3)), "times": draw(st.integers(1, 4))})
+    elif kind == "exp":
+        op.update({"scale": draw(st.sampled_from([None, 0.5, 0.25, -0.5])), "steps": draw(st.sampled_from([None, 2, 3, 4]))})
+    elif kind == "inplace":
+        op["c"] = draw(st.sampled_from([2.0, 0.5, -1.0, -0.25]))
+    elif kind == "warp":
+        C = draw(st.integers(1, 2))
+        op.update({"C": C, "alpha": draw(st.lists(gen.qfloat(-3.0, 3.0, 0.01), min_size=C * D, max_size=C * D)),
+                   "beta": draw(st.lists(gen.qfloat(-10.0, 10.0, 0.1), min_size=C, max_size=C)),
+                   "padding": draw(st.sampled_from([None, "zeros", "border"]))})
+    elif kind == "probe":
+        op.update({"a": draw(st.sampled_from(AX)), "b": draw(st.sampled_from(AX))})
+    elif kind == "poke":
+        op["a"] = draw(st.sampled_from(AX))
+    return op
+
+
+@st.composite
+def program_cases(draw):
+    D = draw(gen.dims())
+    case = draw(grid_sets(D, 8 if D == 2 else 5, near=True, min_size=3))
+    for g in case["grids"]:
+        # moderate geometry (spacing 0.3..3, |centre| <= 10): the float32 point map (coordinate error ~ eps32 |x| / spacing samples,
+        # C01/C02's subject) would otherwise use up the accumulated bound after two resampling steps
+        g["spacing"] = [float(f"{min(3.0, max(0.3, v ** 0.5)):.3g}") for v in g["spacing"]]
+        g["center"] = [round(v / 3.0, 3) for v in g["center"]]
+    # two resampling steps (on a derived grid, back onto an earlier grid object, or an inherited image operation) with other
+    # operations and observations before, between and after them
+    ops = (draw(st.lists(program_ops(D, OTHER_OPS), max_size=1)) + [draw(program_ops(D, ["sample", "sample", "method"]))]
+           + draw(st.lists(program_ops(D, OTHER_OPS + REGRID_OPS), max_size=2)) + [draw(program_ops(D, REGRID_OPS))]
+           + draw(st.lists(program_ops(D, OTHER_OPS + REGRID_OPS), max_size=1)))
+    case.update({"D": D, "dtype": draw(gen.dtypes()), "field": draw(fields(D, ("affine", "affine", "smooth", "smoothl"))),
+                 "fscale": draw(st.sampled_from([1.0, 1.0, 1.0, 0.01, 0.001])),
+                 "src": draw(st.sampled_from(["model", "model", "axes"])), "route": draw(st.sampled_from(ROUTES)),
+                 "r": draw(st.sampled_from(["grid", "grid", "grid", "cube", "cube", "cube", "cube_corners", "cube_corners", "cube_corners", "world"])),
+                 "share": draw(st.sampled_from(["object", "object", "clones"])),
+                 "ops": ops,
+                 "fork": {"r": draw(st.sampled_from(AX)), "how": draw(how_specs(D, HOWS)), "padding": draw(st.sampled_from(PADS))}})
+    return case
+
+
+def model_of(g) -> ref.GridModel:
+    """float64 copy of the geometry a deepali grid reports (all of it is derived from size(), spacing(), center(), direction())."""
+    return ref.GridModel([int(v) for v in g.size()], g.spacing().double().numpy(), center=g.center().double().numpy(),
+                         direction=g.direction().double().numpy(), align_corners=bool(g.align_corners()))
+
+
+def resolve_how(spec: dict, g, D: int, method: bool = False):
+    """Concrete arguments of the derivation `spec` for a grid of the current size.  If it would change nothing or leave the size
+    range 2..cap (cube axes need two samples per axis), a resize() to the alternative size spec["alt"] takes its place."""
+    res = resolve_how_(spec, g, D, method)
+    if res is None and spec.get("alt") is not None:
+        res = resolve_how_({"how": "resize", "size": spec["alt"], "rac": spec.get("rac"), "form": "list"}, g, D, method)
+    return res
+
+
+def resolve_how_(spec: dict, g, D: int, method: bool):
+    cap = PCAP[D]
+    n = [int(v) for v in g.size()]
+    how = spec["how"]
+    if how in ("self", "acflip"):
+        return {"how": how}
+    if how == "resize":
+        size = [int(v) for v in spec["size"]]
+        if size == n:
+            size[0] = n[0] + 1 if n[0] < cap else n[0] - 1
+        return {"how": how, "size": size, "rac": spec.get("rac"), "form": spec.get("form", "list")}
+    if how in ("downsample", "upsample"):
+        want = list(range(D)) if spec.get("dims") is None else [int(d) for d in spec["dims"]]
+        # image operations halve the data tensor: even sizes only; a grid alone keeps the fractional size n/2 (rounded up)
+        dims = [d for d in want if ((n[d] >= 4 and n[d] % 2 == 0 if method else n[d] >= 3) if how == "downsample" else 2 * n[d] <= cap)]
+        if not dims:
+            return None
+        return {"how": how, "dims": None if spec.get("dims") is None and len(dims) == D else dims, "rac": spec.get("rac"),
+                "frac": how == "downsample" and any(n[d] % 2 for d in dims)}
+    if how == "pyramid":
+        # Grid.pyramid(L) has levels 0..L, FlowFields.pyramid(L) returns levels 0..L-1; the coarsest level must keep two samples
+        L, level = int(spec["levels"]), int(spec["level"])
+        if method:
+            level = min(level, L - 1)
+        if min(n) < 1.5 * 2 ** L or max(n) + 2 > cap:
+            return None
+        return {"how": how, "levels": L, "level": level}
+    if how == "resample":
+        ext = g.extent().double().numpy()
+        sp = g.spacing().double().numpy()
+        if spec["to"] in ("min", "max"):
+            q = ext / (sp.min() if spec["to"] == "min" else sp.max())
+            if np.all(q > 1.05) and np.all(q < cap - 0.05) and np.all(np.abs(q - np.rint(q)) > 0.05) and float(sp.max() / sp.min()) > 1.01:
+                return {"how": how, "spacing": spec["to"], "frac": True}
+        q = np.clip(np.array(n, dtype=np.float64) * np.array(spec["f"], dtype=np.float64), 1.3, cap - 0.3)
+        fr = q - np.floor(q)
+        q = np.where((fr < 0.25) | (fr > 0.75), np.floor(q) + 0.5, q)  # the size extent/spacing is rounded up: stay away from integers
+        return {"how": how, "spacing": [float(f"{v:.6g}") for v in ext / q], "frac": True}
+    if how in ("crop", "pad", "center_crop", "center_pad"):
+        num = []
+        margin = spec.get("form") == "margin" and how in ("crop", "pad")  # crop(margin=)/pad(margin=): the same number at both ends
+        for v, (lo, hi) in zip(n, spec["num"]):
+            room = max(0, v - 2 if how in ("crop", "center_crop") else cap - v)
+            if margin:
+                lo = hi = min(int(lo), room // 2)
+            else:
+                lo = min(int(lo), room)
+                hi = min(int(hi), room - lo)
+            num.append([lo, hi])
+        if not any(v for p in num for v in p):
+            return None
+        return {"how": how, "num": num, "form": spec.get("form", "num")}
+    if how == "recenter":
+        A = g.direction().double().numpy() @ np.diag(g.spacing().double().numpy())
+        c = g.center().double().numpy() + A @ np.array(spec["off"], dtype=np.float64)
+        return {"how": how, "center": [float(f"{v:.7g}") for v in c]}
+    if how == "respace":
+        return {"how": how, "spacing": [float(f"{v:.6g}") for v in g.spacing().double().numpy() * np.array(spec["f"], dtype=np.float64)]}
+    if how == "reorient":
+        Q = np.eye(D)
+        Q[:2, :2] = ref.rot2(float(spec["angle"]))
+        return {"how": how, "direction": [[float(v) for v in row] for row in g.direction().double().numpy() @ Q]}
+    raise ValueError(how)
+
+
+def derive_live(g, res: dict):
+    """Grid derived from the live deepali grid g with the Grid method a user would call."""
+    how = res["how"]
+    if how == "self":
+        return g
+    if how == "acflip":
+        return g.align_corners(not g.align_corners())
+    kw = {} if res.get("rac") is None else {"align_corners": bool(res["rac"])}
+    if how == "resize":
+        if res["form"] == "args":
+            return g.resize(*res["size"], **kw)
+        if res["form"] == "reshape":
+            return g.reshape(res["size"][::-1], **kw)
+        return g.resize(res["size"], **kw)
+    if how == "downsample":
+        return g.downsample(1, dims=res["dims"], **kw)
+    if how == "upsample":
+        return g.upsample(1, dims=res["dims"], **kw)
+    if how == "pyramid":
+        return g.pyramid(res["levels"])[res["level"]]
+    if how == "resample":
+        return g.resample(res["spacing"])
+    if how == "recenter":
+        return g.center(res["center"])
+    if how == "respace":
+        return g.spacing(res["spacing"])
+    if how == "reorient":
+        return g.direction(torch.tensor(res["direction"], dtype=torch.float64))
+    flat = [int(v) for p in res["num"] for v in p]
+    n = [int(v) for v in g.size()]
+    if how == "crop":
+        return g.crop(margin=[p[0] for p in res["num"]]) if res["form"] == "margin" else g.crop(num=flat)
+    if how == "pad":
+        return g.pad(margin=[p[0] for p in res["num"]]) if res["form"] == "margin" else g.pad(num=flat)
+    if how == "center_crop":
+        return g.center_crop([v - p[0] - p[1] for v, p in zip(n, res["num"])])
+    if how == "center_pad":
+        return g.center_pad([v + p[0] + p[1] for v, p in zip(n, res["num"])])
+    raise ValueError(how)
+
+
+def apply_method(f, res: dict):
+    """The same derivation through the operation the flow field inherits from Image / ImageBatch."""
+    how = res["how"]
+    kw = {} if res.get("rac") is None else {"align_corners": bool(res["rac"])}
+    if how == "resize":
+        return f.resize(*res["size"], **kw) if res["form"] == "args" else f.resize(res["size"], **kw)
+    if how == "downsample":
+        return f.downsample(1, dims=res["dims"], **kw)
+    if how == "upsample":
+        return f.upsample(1, dims=res["dims"], **kw)
+    if how == "pyramid":
+        return f.pyramid(res["levels"], start=res["level"], end=res["level"])[res["level"]]
+    if how == "resample":
+        return f.resample(res["spacing"])
+    flat = [int(v) for p in res["num"] for v in p]
+    n = [int(v) for v in result_grids(f)[0].size()]
+    if how == "crop":
+        return f.crop(margin=[p[0] for p in res["num"]]) if res["form"] == "margin" else f.crop(num=flat)
+    if how == "pad":
+        return f.pad(margin=[p[0] for p in res["num"]]) if res["form"] == "margin" else f.pad(num=flat)
+    if how == "center_crop":
+        return f.center_crop([v - p[0] - p[1] for v, p in zip(n, res["num"])])
+    if how == "center_pad":
+        return f.center_pad([v + p[0] + p[1] for v, p in zip(n, res["num"])])
+    raise ValueError(how)
+
+
+def unit_scale(m: ref.GridModel, a: str) -> np.ndarray:
+    """Index units per unit of the grid-aligned axes a."""
+    return {"grid": np.ones(m.D), "cube": m.n / 2, "cube_corners": (m.n - 1) / 2}[a]
+
+
+def matrix_bound(mg: ref.GridModel, a: str, mh: ref.GridModel, b: str) -> np.ndarray:
+    """Entry-wise magnitude eps32 is relative to in the vector matrix a (grid mg) -> b (grid mh): (world units per a-unit
+    along column axis) x (b-units per world unit along row axis); direction cosines have absolute accuracy eps32."""
+    col = np.ones(mg.D) if a == "world" else mg.s * unit_scale(mg, a)
+    row = np.ones(mh.D) if b == "world" else 1.0 / (mh.s * unit_scale(mh, b))
+    return KC * EPS32 * mg.D * np.outer(row, col)
+
+
+def grad_per_step(uw: np.ndarray, D: int) -> float:
+    """Bound of the change of a multilinear interpolant of the samples uw per index step (inf-norm, sum over the grid axes)."""
+    g = 0.0
+    for ax in range(D):
+        if uw.shape[ax] > 1:
+            g += float(np.abs(np.diff(uw, axis=ax)).max())
+    return g
+
+
+def resample_bound(eps: float, m: ref.GridModel, t: ref.GridModel, uw: np.ndarray, idx: np.ndarray, hard_edge: bool) -> float:
+    """As in run_sample: coordinate error of the point map (index units of the source) times the gradient of the interpolant, plus
+    the re-expression of the vectors w.r.t. both grids."""
+    D = m.D
+    W = max(float(np.abs(m.c).max() + np.abs(m.s * m.n).sum()), float(np.abs(t.c).max() + np.abs(t.s * t.n).sum()), 1.0)
+    cpt = W / float(m.s.min()) + float(m.n.max()) + float(np.abs(idx).max())
+    grad = grad_per_step(uw, D)
+    if hard_edge:  # zero padding / constant fill: the field drops from its boundary value to 0 within one sample
+        grad += float(np.abs(uw).max())
+    uterm = float((np.abs(uw).reshape(-1, D) @ (kappa(t) @ kappa(m)).T).max())
+    return KO * eps * (cpt * grad + uterm)
+
+
+def vec_err(eps: float, m: ref.GridModel, uw: np.ndarray) -> float:
+    """World-space error of one re-expression of the vectors uw (through axes aligned with grid m)."""
+    return KC * eps * max(1e-30, float((np.abs(uw).reshape(-1, m.D) @ kappa(m).T).max())) * cond_vec(m)
+
+
+def same_objects(gs) -> bool:
+    return all(g is gs[0] for g in gs)
+
+
+def run_program(case):
+    from deepali.data import FlowField, Image, ImageBatch
+
+    D, N, dt = case["D"], case["N"], tdtype(case["dtype"])
+    eps = _eps(dt)
+    single = case["kind"] == "FlowField"
+    descs = case["grids"] * N if len(case["grids"]) == 1 else list(case["grids"])
+    object_shared = len(case["grids"]) == 1 and (case.get("share", "object") == "object" or single)
+    ms = [ref.GridModel.from_desc(g) for g in descs]
+
+    def build_grids():
+        if object_shared:
+            return [make_grid(descs[0])] * N
+        return [make_grid(g) for g in descs]
+
+    live, fresh = build_grids(), build_grids()  # the run under test / the WORLD-axes run: never share a grid object
+    bcase = case if object_shared else dict(case, grids=descs)
+    u_idx = [index_field(case["field"], m, i) * float(case.get("fscale", 1.0)) for i, m in enumerate(ms)]
+    Wm = [m.vectors(u, "grid", "world") for m, u in zip(ms, u_idx)]  # float64 model: world vectors at the samples of the current grids
+    r = case["r"]
+    cur = given_in(bcase, ms, live, dt, r, u_idx)
+    wcur = build_flow(dict(bcase, route="direct"), Wm, "world", fresh, dt)
+    fk = case["fork"]
+    other = build_flow(dict(bcase, route="direct"), [m.vectors(-0.5 * u, "grid", fk["r"]) for m, u in zip(ms, u_idx)], fk["r"], live, dt)
+    other0 = other.tensor().clone()
+    mods = list(ms)
+    E = [vec_err(eps, m, w) for m, w in zip(ms, Wm)]
+    registry = [(g, m, bool(d["ac"])) for g, m, d in zip(live, ms, descs)]  # every live grid of the run under test with its model
+    hist, whist = [list(live)], [list(fresh)]
+    # Grid keeps a fractional size after resample() and after downsample() of odd sizes; the image operations of a field on such a
+    # grid (whose data tensor has the rounded size) are not this property's subject: such fields are only converted and sample()d
+    frac = [False]
+    worst, tight, did, n_regrid = 0.0, True, [], 0
+
+    def reference():
+        return Wm if Wm is not None else items(wcur)
+
+    def check_pair(out, wout, kind: str, what: str):
+        """Result containers of the two runs: type, batch size, equal grids, shapes, dtype, axes labels."""
+        if type(out) is not type(cur) or type(wout) is not type(wcur):
+            raise Violation(f"program_{kind}_result_type", f"{what}: returned {type(out).__name__} / {type(wout).__name__} (WORLD run)")
+        io, iw, rg, wg = items(out), items(wout), result_grids(out), result_grids(wout)
+        if len(io) != N or len(rg) != N or len(iw) != N or len(wg) != N:
+            raise Violation(f"program_{kind}_batch_size", f"{what}: {len(io)} fields on {len(rg)} grids (WORLD run: {len(iw)} on {len(wg)}) for N={N}")
+        for i in range(N):
+            if not (rg[i] == wg[i]) or tuple(rg[i].shape) != tuple(io[i].shape[:-1]) or tuple(wg[i].shape) != tuple(iw[i].shape[:-1]):
+                raise Violation(f"program_{kind}_result_grid", f"{what}: item {i} is on {rg[i]!r} with data shape {io[i].shape}, the WORLD-axes run on {wg[i]!r} with {iw[i].shape}")
+        if out.dtype != dt:
+            raise Violation(f"program_{kind}_result_dtype", f"{what}: dtype {out.dtype} for input {dt}")
+        if wout.axes() is not _A("world"):
+            raise Violation(f"program_{kind}_result_axes", f"{what}: WORLD-axes run reports {wout.axes()}")
+
+    def compare(kind: str, what: str):
+        nonlocal worst, tight
+        q = cur.axes().value
+        io, iw = items(cur), items(wcur)
+        for i in range(N):
+            wr = mods[i].vectors(io[i], q, "world")
+            if Wm is not None:
+                worst = max(worst, check_close(iw[i], Wm[i], E[i], "program_world_run_vs_model",
+                                               f"{what}: field given in world axes vs float64 model of the program, item {i}"))
+                worst = max(worst, check_close(wr, Wm[i], E[i], f"program_{kind}_vs_model",
+                                               f"{what}: world meaning of the field held in {q} axes vs float64 model of the program, item {i}"))
+            worst = max(worst, check_close(wr, iw[i], 2 * E[i], f"program_{kind}_representation_dependent",
+                                           f"{what}: world meaning of the field held in {q} axes vs the same program on the field given in world axes, item {i}"))
+            sig = float(np.abs(iw[i]).max())
+            tight = tight and E[i] <= 0.02 * sig
+
+    for k, op in enumerate(case["ops"]):
+        kind = op["op"]
+        gr_r, gr_w = result_grids(cur), result_grids(wcur)
+        q = cur.axes().value
+        if kind == "axes" or kind == "cycle":
+            path = [op["a"]] if kind == "axes" else list(op["path"]) * int(op["times"])
+            for a in path:
+                new = cur.axes(_A(a))
+                check_struct(new, cur, N, gr_r, a, dt, "program_axes")
+                cur = new
+                E = [e + vec_err(eps, m, w) for e, m, w in zip(E, mods, reference())]
+            compare("axes", f"step {k}: axes() along {'->'.join([q] + path)}")
+            did.append(kind)
+        elif kind == "inplace":
+            c = float(op["c"])
+            cur.tensor().mul_(c)
+            wcur.tensor().mul_(c)
+            if Wm is not None:
+                Wm = [w * c for w in Wm]
+            E = [abs(c) * e + vec_err(eps, m, w) for e, m, w in zip(E, mods, reference())]
+            compare("inplace", f"step {k}: in-place scaling of the data by {c}")
+            did.append(kind)
+        elif kind == "acflip":
+            def flipped(gs):
+                if same_objects(gs):
+                    return [gs[0].align_corners(not gs[0].align_corners())] * len(gs)
+                return [g.align_corners(not g.align_corners()) for g in gs]
+
+            ng, nw = flipped(gr_r), flipped(gr_w)
+            new = cur.grid(ng[0]) if single else cur.grid(ng[0] if same_objects(ng) else ng)
+            wnew = wcur.grid(nw[0]) if single else wcur.grid(nw[0] if same_objects(nw) else nw)
+            check_pair(new, wnew, "acflip", f"step {k}: grid(copy with the other align_corners flag)")
+            if new.axes() is not _A(q):
+                raise Violation("program_acflip_result_axes", f"step {k}: replacing the grid by a copy with the other align_corners flag turned {q} axes into {new.axes()}")
+            cur, wcur = new, wnew
+            mods = [model_of(g) for g in result_grids(wcur)]
+            registry += [(g, m, bool(m.ac)) for g, m in zip(result_grids(cur), mods)]
+            hist.append(result_grids(cur))
+            whist.append(result_grids(wcur))
+            frac.append(frac[-1])
+            compare("acflip", f"step {k}: grid(copy with the other align_corners flag)")
+            did.append(kind)
+        elif kind in ("sample", "method"):
+            uw = reference()
+            if kind == "sample":
+                src_r = {"cur": gr_r, "base": hist[0], "prev": hist[-2] if len(hist) > 1 else hist[0]}[op["src"]]
+                src_w = {"cur": gr_w, "base": whist[0], "prev": whist[-2] if len(whist) > 1 else whist[0]}[op["src"]]
+                res = [resolve_how(op["how"], g, D) for g in src_w]
+                src_frac = {"cur": frac[-1], "base": frac[0], "prev": frac[-2] if len(frac) > 1 else frac[0]}[op["src"]]
+                if any(x is None for x in res):
+                    did.append("noop")
+                    continue
+                if same_objects(src_r):
+                    tr, tw = [derive_live(src_r[0], res[0])] * N, [derive_live(src_w[0], res[0])] * N
+                else:
+                    tr, tw = [derive_live(g, x) for g, x in zip(src_r, res)], [derive_live(g, x) for g, x in zip(src_w, res)]
+                if any(t.size() != tw[0].size() for t in tw[1:]):  # grids with different flags: a batch needs one size
+                    did.append("noop")
+                    continue
+                if all(a == b for a, b in zip(tw, gr_w)):  # sample() documents that it returns self then
+                    did.append("noop")
+                    continue
+                form = "single" if single else op.get("form", "list")
+                if form != "list" and not same_objects(tr):
+                    form = "list"
+                arg_r, arg_w = (tr[0], tw[0]) if form == "single" else ([tr[0]], [tw[0]]) if form == "list_one" else (list(tr), list(tw))
+                kw = {} if op.get("padding") is None else {"padding": op["padding"]}
+                what = f"step {k}: sample({form} of grid(s) derived from the {op['src']} grid by {res[0]['how']}, padding={op.get('padding')})"
+                c0 = cur.tensor().clone()
+                mt_asked = [model_of(t) for t in tw]  # before use: no step may change a grid it is given
+                registry += [(g, m, bool(g.align_corners())) for g, m in zip(tr, mt_asked)]
+                out, wout = cur.sample(arg_r, **kw), wcur.sample(arg_w, **kw)
+                pad = "zeros" if op.get("padding") is None else op["padding"]
+                modelled = True
+            else:
+                how = op["how"]["how"]
+                res = [resolve_how(op["how"], g, D, method=True) for g in gr_w]
+                src_frac = False
+                if any(x is None for x in res) or (res[0]["how"] == "resample" and any(x != res[0] for x in res[1:])) or (frac[-1] and res[0]["how"] not in ("resize", "resample")):
+                    did.append("noop")
+                    continue
+                how = res[0]["how"]
+                what = f"step {k}: {how}({ {a: b for a, b in res[0].items() if a not in ('how', 'frac')} })"
+                c0 = cur.tensor().clone()
+                out, wout = apply_method(cur, res[0]), apply_method(wcur, res[0])
+                # float64 model: resize() interpolates linearly and clamps at the boundary; crop/pad copy samples and fill with 0;
+                # resample() interpolates with zero padding; the others smooth (no model, WORLD-axes run only)
+                pad = {"resize": "border", "resample": "zeros", "crop": "zeros", "pad": "zeros", "center_crop": "zeros", "center_pad": "zeros"}.get(how)
+                modelled = pad is not None
+            check_pair(out, wout, kind, what)
+            if not torch.equal(cur.tensor(), c0):
+                raise Violation("input_modified", f"{what} modified the flow field it was called on")
+            if out.axes() is not _A(q):
+                raise Violation(f"program_{kind}_result_axes", f"{what}: field in {q} axes came back in {out.axes()} axes")
+            mt = [model_of(g) for g in result_grids(wout)]
+            if kind == "sample":  # the result is on the grids it was asked for (check_pair: the same in both runs)
+                if not all(a == b for a, b in zip(result_grids(wout), tw)):
+                    raise Violation("program_sample_result_grid", f"{what}: result is on {result_grids(wout)!r}, asked for {tw!r}")
+                mt = mt_asked
+            idx = [m.points(t.world_points(), "world", "grid") for m, t in zip(mods, mt)]
+            E = [e + resample_bound(eps, m, t, w, x, pad != "border") for e, m, t, w, x in zip(E, mods, mt, uw, idx)]
+            if Wm is not None and modelled:
+                Wm = [np.moveaxis(ref.interp(chfirst(w), x, "linear", pad), 0, -1) for w, x in zip(Wm, idx)]
+            else:
+                Wm = None
+            cur, wcur, mods = out, wout, mt
+            registry += [(g, m, bool(m.ac)) for g, m in zip(result_grids(cur), mods)]
+            hist.append(result_grids(cur))
+            whist.append(result_grids(wcur))
+            frac.append(bool(res[0].get("frac")) or (src_frac and res[0]["how"] in ("self", "acflip", "recenter", "respace", "reorient", "downsample", "upsample")))
+            compare(kind, what)
+            n_regrid += 1 if q != "world" else 0
+            did.append(kind + ":" + res[0]["how"])
+        elif kind == "exp":
+            uw = reference()
+            kw = {a: op[a] for a in ("scale", "steps") if op.get(a) is not None}
+            s = abs(float(op["scale"])) if op.get("scale") is not None else 1.0
+            steps = 5 if op.get("steps") is None else int(op["steps"])
+            new_e = []
+            for e, m, w in zip(E, mods, uw):
+                ui = m.vectors(w, "world", "grid") * s
+                amp, lip = float(np.abs(ui).max()), grad_per_step(ui, D)
+                growth = math.exp(0.5 * lip * math.exp(lip)) if lip < 3 else float("inf")
+                Lw = float(np.abs(m.A).sum(1).max())
+                new_e.append(growth * cond_vec(m) * e * max(s, 1.0) + KO * eps * growth * (2 * cond_vec(m) * amp + (steps + 1) * (lip * float(m.n.max()) / 2 + amp)) * Lw)
+            what = f"step {k}: exp({kw})"
+            c0 = cur.tensor().clone()
+            out, wout = cur.exp(**kw), wcur.exp(**kw)
+            check_pair(out, wout, "exp", what)
+            if not torch.equal(cur.tensor(), c0):
+                raise Violation("input_modified", f"{what} modified the flow field it was called on")
+            if out.axes() is not _A(q):
+                raise Violation("program_exp_result_axes", f"{what}: field in {q} axes came back in {out.axes()} axes")
+            cur, wcur, Wm, E = out, wout, None, new_e
+            if all(math.isfinite(e) for e in E):
+                compare("exp", what)
+            else:
+                tight = False
+            did.append(kind)
+        elif kind == "warp":
+            C = int(op["C"])
+            alpha = np.array(op["alpha"], dtype=np.float64).reshape(C, D)
+            beta = np.array(op["beta"], dtype=np.float64)
+            ramps = [(m.index_points() - (m.n - 1) / 2) @ alpha.T + beta for m in mods]
+            kw = {} if op.get("padding") is None else {"padding": op["padding"]}
+            pad = "zeros" if op.get("padding") is None else op["padding"]
+
+            def image_on(gs):
+                if single:
+                    return Image(torch.tensor(chfirst(ramps[0]), dtype=dt), gs[0])
+                return ImageBatch(torch.tensor(np.stack([chfirst(x) for x in ramps]), dtype=dt), list(gs))
+
+            out, wout = cur.warp_image(image_on(gr_r), **kw), wcur.warp_image(image_on(gr_w), **kw)
+            want = Image if single else ImageBatch
+            if type(out) is not want or type(wout) is not want:
+                raise Violation("program_warp_result_type", f"step {k}: warp_image() returned {type(out).__name__} / {type(wout).__name__}")
+            io, iw = items(out), items(wout)
+            if len(io) != N or len(iw) != N:
+                raise Violation("program_warp_batch_size", f"step {k}: warp_image() returned {len(io)} / {len(iw)} images for N={N}")
+            uw = reference()
+            for i, m in enumerate(mods):
+                ui = m.vectors(uw[i], "world", "grid")
+                gsum = float(np.abs(alpha).sum(1).max())
+                imax = float(np.abs(ramps[i]).max())
+                if pad == "zeros":
+                    gsum += imax
+                e_idx = E[i] * float(np.abs(np.linalg.inv(m.A)).sum(1).max())
+                bw = KO * eps * ((float(m.n.max()) + float((np.abs(ui).reshape(-1, D) @ kappa_idx(m).T).max())) * gsum + imax) + e_idx * gsum
+                if io[i].shape != ramps[i].shape or iw[i].shape != ramps[i].shape:
+                    raise Violation("program_warp_result_shape", f"step {k}: warped image {i} has shape {io[i].shape} / {iw[i].shape}, expected {ramps[i].shape}")
+                if Wm is not None:
+                    expect = np.moveaxis(ref.interp(chfirst(ramps[i]), m.index_points() + ui, "linear", pad), 0, -1)
+                    worst = max(worst, check_close(io[i], expect, bw, "program_warp_vs_model",
+                                                   f"step {k}: ramp image warped by the field held in {q} axes vs float64 model, item {i}"))
+                worst = max(worst, check_close(io[i], iw[i], 2 * bw, "program_warp_representation_dependent",
+                                               f"step {k}: ramp image warped by the field held in {q} axes vs by the field given in world axes, item {i}"))
+            did.append(kind)
+        elif kind == "probe":
+            # the grid's own vector map of every grid object the run has touched so far
+            pairs = list(dict.fromkeys([(q, "world"), ("world", q), (op["a"], op["b"])]))
+            for j, (g, m, _) in enumerate(registry):
+                for a, b in pairs:
+                    M = g.transform(_A(a), _A(b), vectors=True).detach().double().numpy()
+                    ref_m = m.matrix(a, b)[:D, :D]
+                    if M.shape != ref_m.shape:
+                        raise Violation("program_grid_vector_map_shape", f"step {k}: Grid.transform({a}, {b}, vectors=True) has shape {M.shape}")
+                    err = float((np.abs(M - ref_m) / matrix_bound(m, a, m, b)).max())
+                    worst = max(worst, err)
+                    if not err <= 1.0:
+                        raise Violation("program_grid_vector_map", f"step {k}: Grid.transform({a}, {b}, vectors=True) of live grid #{j} {g!r} is\n{M}\nmodel\n{ref_m}\n(err/bound {err:.3g})")
+                if j > 0 and q != "world":
+                    h, mh, _ = registry[j - 1]
+                    M = h.transform(_A(q), _A(q), to_grid=g, vectors=True).detach().double().numpy()
+                    ref_m = mh.matrix(q, q, m)[:D, :D]
+                    err = float((np.abs(M - ref_m) / matrix_bound(mh, q, m, q)).max())
+                    worst = max(worst, err)
+                    if not err <= 1.0:
+                        raise Violation("program_grid_to_grid_vector_map", f"step {k}: Grid.transform({q}, {q}, to_grid, vectors=True) from live grid #{j - 1} {h!r} to #{j} {g!r} is\n{M}\nmodel\n{ref_m}\n(err/bound {err:.3g})")
+            did.append(kind)
+        elif kind == "poke":
+            a = op["a"]
+            if a == q:
+                did.append("noop")
+                continue
+            c0 = cur.tensor().clone()
+            g1 = cur.axes(_A(a))
+            snap = g1.tensor().clone()
+            g1.tensor().mul_(-3.0).add_(1.0)  # the caller overwrites the converted copy ...
+            if not torch.equal(cur.tensor(), c0):
+                raise Violation("axes_result_shares_storage", f"step {k}: overwriting the result of axes({a}) changed the {q} field it was computed from")
+            g2 = cur.axes(_A(a))  # ... and asks again
+            if not torch.equal(g2.tensor(), snap):
+                raise Violation("axes_result_not_recomputed", f"step {k}: second axes({a}) of the unchanged {q} field differs from the first after the first result was overwritten")
+            did.append(kind)
+        else:
+            raise ValueError(kind)
+
+    # the second flow field, which shares the original grid objects with the first and was never touched
+    if not torch.equal(other.tensor(), other0) or other.axes() is not _A(fk["r"]):
+        raise Violation("program_other_field_modified", "a flow field sharing the grid objects of the field the program ran on was modified")
+    ow = items(other.axes(_A("world")))
+    Wo = [-0.5 * m.vectors(u, "grid", "world") for m, u in zip(ms, u_idx)]
+    for i, m in enumerate(ms):
+        worst = max(worst, check_close(ow[i], Wo[i], 2 * vec_err(eps, m, Wo[i]), "program_other_field_axes",
+                                       f"axes(WORLD) of a second field ({fk['r']} axes) on the original grid objects after the program, item {i}"))
+    res = [resolve_how(fk["how"], g, D) for g in fresh]
+    tw = [derive_live(g, x) for g, x in zip(fresh, res)] if all(x is not None for x in res) else []
+    if tw and fk["how"]["how"] not in ("self", "acflip") and all(t.size() == tw[0].size() for t in tw):
+        tr = [derive_live(live[0], res[0])] * N if same_objects(live) else [derive_live(g, x) for g, x in zip(live, res)]
+        kw = {} if fk.get("padding") is None else {"padding": fk["padding"]}
+        pad = "zeros" if fk.get("padding") is None else fk["padding"]
+        out = other.sample(tr[0] if single else list(tr), **kw)
+        mt = [model_of(t) for t in tw]
+        io = items(out)
+        if type(out) is not type(other) or len(io) != N or out.axes() is not _A(fk["r"]):
+            raise Violation("program_other_field_sample_result", f"sample() of the second field returned {type(out).__name__} with {len(io)} items in {out.axes()} axes")
+        for i in range(N):
+            x = ms[i].points(mt[i].world_points(), "world", "grid")
+            expect = np.moveaxis(ref.interp(chfirst(Wo[i]), x, "linear", pad), 0, -1)
+            if io[i].shape != expect.shape:
+                raise Violation("program_other_field_sample_result", f"sample() of the second field: item {i} has shape {io[i].shape}, expected {expect.shape}")
+            bnd = vec_err(eps, ms[i], Wo[i]) + resample_bound(eps, ms[i], mt[i], Wo[i], x, pad != "border")
+            worst = max(worst, check_close(mt[i].vectors(io[i], fk["r"], "world"), expect, bnd, "program_other_field_sample",
+                                           f"second field ({fk['r']} axes) on the original grid objects resampled after the program on a grid derived by {res[0]['how']}, item {i}"))
+    # grid objects are values: no step may have changed the flag of a grid it was given, nor what a new field on it means by default
+    for j, (g, m, flag) in enumerate(registry):
+        if bool(g.align_corners()) != flag:
+            raise Violation("program_grid_flag_modified", f"align_corners flag of live grid #{j} changed from {flag} to {g.align_corners()} during the program")
+    dflt = FlowField(torch.zeros((D,) + tuple(int(v) for v in descs[0]["size"][::-1]), dtype=dt), live[0])
+    if dflt.axes() is not _A("cube_corners" if descs[0]["ac"] else "cube"):
+        raise Violation("program_default_axes_changed", f"a new flow field on the original grid (align_corners={descs[0]['ac']}) reports default axes {dflt.axes()}")
+    labs, objq, distinct = grid_labels(case)
+    state_ops = [d for d in did if d.split(":")[0] in ("sample", "method", "axes", "cycle", "exp", "inplace", "acflip")]
+    return {"ratio": worst, "nontrivial": objq and tight and n_regrid >= 2 and (N == 1 or distinct),
+            "labels": labs + ["field=" + case["field"]["type"], "r=" + r, "src=" + case["src"], "route=" + case.get("route", "direct"),
+                              "share=" + ("object" if object_shared else "distinct" if distinct else "clones"), f"fscale={case.get('fscale', 1.0)}",
+                              f"state_ops={min(len(state_ops), 4)}", f"regrids={min(n_regrid, 3)}", "model=" + ("kept" if Wm is not None else "lost"),
+                              "tight" if tight else "loose"] + sorted(set("did=" + d for d in did))}
 
 
 FACETS = [
@@ -1303,6 +1989,17 @@ FACETS = [
                "world-affine closed form (resize, avg_pool) and the stored vectors at kept samples (crop family); non-trivial = oblique anisotropic "
                "grids, >= 3 pinned samples, N = 1 or distinct grids, bound <= 2 % of the displacement",
           quick=400, thorough=6000, shards=16, quick_shards=2),
+    Facet("program", run_program, strategy=program_cases,
+          rule="2..5 operations in a row (axes / axes cycles, sample on grids derived with Grid.resize / reshape / downsample / upsample / "
+               "pyramid / resample / crop / pad / align_corners / center from the current, the original or the previous grid OBJECT, sample "
+               "back onto an earlier grid object, inherited resize / downsample / upsample / pyramid / resample / crop / pad / center_crop / "
+               "center_pad, exp, in-place scaling, grid copies with the other flag; observations: warp_image, the vector matrices of all "
+               "live grids, overwriting a converted copy) on a field held in representation r on live grid objects (one object for all "
+               "items, equal clones, or distinct grids); after every step the world meaning vs the float64 model (while one exists) and vs "
+               "the same program on the field given in WORLD axes on grid objects of its own; a second field sharing the original grid "
+               "objects is converted and resampled afterwards; non-trivial = oblique anisotropic grids, >= 2 resampling steps in a "
+               "representation other than WORLD, N = 1 or distinct grids, accumulated bound <= 2 % of the displacement at every step",
+          quick=500, thorough=6000, shards=16, quick_shards=3),
     Facet("sitk", run_sitk, strategy=sitk_cases,
           rule="FlowField in representation r exported by sitk()/sitk(axes=q)/write(.nrrd) and re-imported; non-trivial = oblique "
                "anisotropic grid and r != world",
